@@ -545,13 +545,29 @@ def slot_suite(ctx, np, HLL, n_cases):
             else:
                 i = rng.randrange(ns)
                 ks = [bytes(rng.getrandbits(8) for _ in range(rng.randint(0, 9))) for _ in range(rng.randint(1, 3))]
-                if rng.random() < 0.5:
+                how = rng.randrange(4)
+                if how == 0:
                     sk[i].update(ks)
-                else:
+                    keys[i] |= set(ks)
+                    trace.append(["update", i, [list(k) for k in ks]])
+                elif how == 1:
                     for k in ks:
                         sk[i].add(k, rng.choice([1, 3]))
-                keys[i] |= set(ks)
-                trace.append(["add", i, [list(k) for k in ks]])
+                    keys[i] |= set(ks)
+                    trace.append(["add", i, [list(k) for k in ks]])
+                else:
+                    n = rng.randint(1, 4)
+                    if how == 2:
+                        for k in ks:
+                            sk[i].add_ngram(k, n)
+                    else:
+                        sk[i].update_ngram(ks, n)
+                    for k in ks:
+                        keys[i] |= set(windows(k, n))
+                    trace.append(["add_ngram" if how == 2 else "update_ngram", i, [list(k) for k in ks], n])
+            # the statement is about query() as well as the registers, at every point of the history: every live
+            # sketch is queried after every operation (so queries are interleaved with adds and merges; added after
+            # seeded changes C07_query_cache_not_reset_by_update / C02_query_cache_not_reset_by_merge)
             for q in range(ns):
                 got = dict(nonzero_pairs(np, sk[q].registers))
                 want = spec_regs(p, seed, keys[q])
@@ -559,13 +575,24 @@ def slot_suite(ctx, np, HLL, n_cases):
                     bad = {"sketch": q, "after_step": trace[-1], "registers": sorted(got.items())[:20],
                            "fresh_sketch_of_its_own_keys": sorted(want.items())[:20]}
                     break
+                f = HLL(p, seed)
+                for k in sorted(keys[q]):
+                    f.add(k)
+                qa, qf = sk[q].query(), f.query()
+                if fbits(qa) != fbits(qf):
+                    bad = {"sketch": q, "after_step": trace[-1], "clause": "query",
+                           "query": repr(qa), "query_of_fresh_sketch_of_its_own_keys": repr(qf)}
+                    break
+                del f
             if bad:
                 break
         ctx.case_seen(("slots", p, seed, repr(trace)), True)
         ctx.count("slot_suite")
         if bad and nviol < 2:
             bad.update({"p": p, "seed": seed, "trace": trace})
-            ctx.violation(bad, "a sketch changed although none of its own keys changed (state shared between sketches after merge)")
+            ctx.violation(bad, "query() of a live sketch differs from query() of a fresh sketch fed its own distinct keys once (stale state behind query)"
+                          if bad.get("clause") == "query" else
+                          "a sketch changed although none of its own keys changed (state shared between sketches after merge)")
             nviol += 1
 
 
